@@ -42,6 +42,8 @@ def cases(tier, seed):
     for i, c_ in enumerate(out):
         if i % 4 == 3:
             c_["reuse"] = True
+        elif i % 4 == 1:
+            c_["torchrl"] = True  # TorchRL-mode env driven with look-ahead probes
     return out
 
 
